@@ -604,6 +604,35 @@ def gen_evictgap(rng, **_):
     return sc
 
 
+def gen_expects(rng, **_):
+    """several tasks block in expect() on one bus at overlapping times - the same key or different keys, different filters and
+    deadlines, some cancelled - while a stream of events of those types is dispatched: the calls begin and end in every order"""
+    n = rng.choice([1, 1, 2])
+    sc = {'buses': [{'parallel': rng.random() < 0.2, 'maxh': rng.choice([50, 50, 3]), 'wal': False} for _ in range(n)],
+          'types': {t: {'timeout': None} for t in 'ABCD'}, 'handlers': [], 'tasks': []}
+    keys = rng.choice([['A'], ['A', 'A', 'B'], ['A', '*'], ['A', 'B', '*']])
+    for _ in range(rng.randint(0, 3)):
+        sc['handlers'].append({'bus': 0, 'key': rng.choice(['A', 'B', '*']), 'kind': rng.choice(['async', 'sync']),
+                               'prog': []})
+        if sc['handlers'][-1]['kind'] == 'async' and rng.random() < 0.5:
+            sc['handlers'][-1]['prog'] = [['sleep', rng.choice([0, 1 / 64, 3 / 64])]]
+    # (a late first event lets the short deadlines expire while calls with longer ones on the same key are still pending)
+    main = [['sleep', rng.choice([0, 1 / 64, 5 / 64, 9 / 64])]]
+    for j in range(rng.randint(2, 6)):
+        main.append(['dispatch', 0, rng.choice('AAB'), j])
+        main.append(['sleep', rng.choice([0, 1 / 64, 2 / 64, 5 / 64])])
+    sc['tasks'].append(main)
+    for _ in range(rng.randint(2, 4)):
+        t = [['sleep', rng.choice([0, 0, 1 / 64, 3 / 64])]]
+        for _ in range(rng.randint(1, 2)):
+            t.append(['expect', 0, rng.choice(keys), rng.choice([0, 0, 1, 2, 3, 4]),
+                      rng.choice([None, 0, 5 / 128, 21 / 128, 67 / 128]), rng.choice([None, None, None, 3 / 128, 19 / 128])])
+            if rng.random() < 0.4:
+                t.append(['sleep', rng.choice([0, 1 / 64])])
+        sc['tasks'].append(t)
+    return sc
+
+
 def gen_idle(rng, **_):
     """wait_until_idle() racing a sequential producer (`await bus.dispatch(...)` in a loop) at every phase offset,
     counted in zero-sleeps, plus external bursts: the re-check loop of wait_until_idle is exercised"""
